@@ -295,6 +295,22 @@ def tolerances(plan):
     return 0.15, 0.05 * rng_
 
 
+COARSE = (0.3, 0.05)     # tau_B, tau_X (fraction of range) when the solver reports
+#                          'optimal_inaccurate' (reduced tolerances reached, not the requested)
+
+
+def solve_grade(events):
+    """'optimal' | 'inaccurate' | 'unusable' from the statuses of the top-level solves
+    (solves issued from inside another solve - DQCP bisection - probe feasibility and are
+    legitimately 'infeasible')."""
+    st = {e.status for e in events if e.depth == 0 and not e.faulted and e.status is not None}
+    if st <= {"optimal"}:
+        return "optimal"
+    if st <= {"optimal", "optimal_inaccurate"}:
+        return "inaccurate"
+    return "unusable"
+
+
 def build_estimator(plan):
     s = plan["sys"]
     est = _dreye.ReceptorEstimator(s["F"], domain=1.0, K=s["K"], baseline=s["baseline"])
@@ -368,6 +384,7 @@ def execute(plan):
     KA = A * (np.asarray(s["K"], float).reshape(-1, 1) if s["Kkind"] == "vector" else s["K"])
     unique_x = (np.linalg.matrix_rank(A) == A.shape[1]) and np.linalg.cond(KA) <= 30
     tauB, tauX = tolerances(plan)
+    rngX_ = float(np.max(s["ub"] - (0 if s["lb"] is None else s["lb"])))
     proc = plan["proc"]
     n_u = plan["U"].shape[0]
     violation = None
@@ -389,16 +406,25 @@ def execute(plan):
             bump("reference_failed:" + proc + ":" + ref.value)
             return {"violation": None, "digest": log.digest(), "steps": steps,
                     "counters": counters, "cov": [], "nontrivial": False}
-        if any(e.status not in ("optimal", None) for e in seam.events):
-            # the solver itself flags a reference solve as inaccurate (iteration limit,
-            # 'optimal_inaccurate'): nothing reliable to compare against in this run
-            bump("reference_solver_status_not_optimal:" + proc)
+        ref_grade = solve_grade(seam.events)
+        if ref_grade == "unusable":
+            # the solver itself disclaims a reference solve (iteration limit, ...): nothing
+            # reliable to compare against in this run
+            bump("reference_solver_status_unusable:" + proc)
             return {"violation": None, "digest": log.digest(), "steps": steps,
                     "counters": counters, "cov": [], "nontrivial": False}
+        if ref_grade == "inaccurate":
+            bump("reference_solver_status_inaccurate:" + proc)
+            tauB, tauX = max(tauB, COARSE[0]), max(tauX, COARSE[1] * rngX_)
         Xref, Bref = (np.array(v, copy=True) for v in ref.value)
         n_src = A.shape[1]
 
-        def check_rows(X, B, seq, ex, what):
+        def check_rows(X, B, seq, ex, what, coarse=False):
+            tB = max(tauB, COARSE[0]) if coarse else tauB
+            tX = max(tauX, COARSE[1] * rngX_) if coarse else tauX
+            return _check_rows(X, B, seq, ex, what, tB, tX)
+
+        def _check_rows(X, B, seq, ex, what, tauB, tauX):
             if X.shape != (len(seq), n_src) or B.shape != (len(seq), A.shape[0]):
                 raise Violation(ID, "wrong_shape", f"{proc}: result shapes {X.shape}/{B.shape} "
                                 f"for {len(seq)} rows ({what})", ex=ex)
@@ -484,15 +510,18 @@ def execute(plan):
                     f"{proc}: n={n}, batch_size={bs!r} raised {out.brief()} although the "
                     f"batch_size=1 reference succeeded", ex=ex, exc=out.value, n=n)
             X, B = (np.asarray(v) for v in out.value)
-            if any(e.status not in ("optimal", None) for e in seam.events):
+            grade = solve_grade(seam.events)
+            if grade == "unusable":
                 # accuracy disclaimed by the solver for this call: values are not compared
-                bump("execution_solver_status_not_optimal:" + proc)
+                bump("execution_solver_status_unusable:" + proc)
                 if X.shape != (n, n_src) or not np.all(np.isfinite(B)):
                     raise Violation(ID, "wrong_shape", f"{proc}: result shapes {X.shape}/"
                                     f"{B.shape} for {n} rows", ex=ex)
                 continue
+            if grade == "inaccurate":
+                bump("execution_solver_status_inaccurate:" + proc)
             check_rows(X, B, seq, ex, "clean execution" if not fault else
-                       "execution after an aborted call")
+                       "execution after an aborted call", coarse=(grade == "inaccurate"))
             nontriv = n >= 2 and (bs != 1 or seq != list(range(n)))
             if nontriv:
                 cov.append((proc, n, bc, tuple(ex["kinds"]), plan["W"] is not None,
